@@ -1,6 +1,6 @@
 SPECIFICATION Spec
 CONSTANTS
-  MaxN = 3
+  MaxN = 2
   MaxV = 3
   MaxW = 3
   Scales = {1, 2, 3}
